@@ -112,7 +112,13 @@ func stable(v ssa.Value) bool {
 	return false
 }
 
-func (e *PSEnv) valKey(v ssa.Value) string {
+func (e *PSEnv) valKey(v ssa.Value) string { return e.valKeyD(v, 0) }
+
+func (e *PSEnv) valKeyD(v ssa.Value, d int) string {
+	if d > 6 {
+		// loop-carried values (i = i + 1) alias to expressions over themselves
+		return v.Name()
+	}
 	v = e.Resolve(v)
 	switch x := v.(type) {
 	case *ssa.Const:
@@ -125,14 +131,14 @@ func (e *PSEnv) valKey(v ssa.Value) string {
 				return "*g:" + g.String()
 			}
 		}
-		return x.Op.String() + "(" + e.valKey(x.X) + ")"
+		return x.Op.String() + "(" + e.valKeyD(x.X, d+1) + ")"
 	case *ssa.BinOp:
-		return "(" + e.valKey(x.X) + x.Op.String() + e.valKey(x.Y) + ")"
+		return "(" + e.valKeyD(x.X, d+1) + x.Op.String() + e.valKeyD(x.Y, d+1) + ")"
 	case *ssa.Field:
-		return e.valKey(x.X) + fmt.Sprintf(".%d", x.Field)
+		return e.valKeyD(x.X, d+1) + fmt.Sprintf(".%d", x.Field)
 	case *ssa.Call:
 		if b, ok := x.Call.Value.(*ssa.Builtin); ok && b.Name() == "len" && len(x.Call.Args) == 1 && stableDeep(e, x.Call.Args[0]) {
-			return "len(" + e.valKey(x.Call.Args[0]) + ")"
+			return "len(" + e.valKeyD(x.Call.Args[0], d+1) + ")"
 		}
 	}
 	return v.Name()
@@ -277,6 +283,35 @@ func (p *Prog) FindPathPS(from Loc, isTarget func(ssa.Instruction) bool, cut *Cu
 		path []*ssa.BasicBlock
 	}
 	const maxStates = 40000
+	// blocks from which a target is reachable at all (path-insensitively, respecting the
+	// cut): everything else is pruned at once
+	canReach := map[*ssa.BasicBlock]bool{}
+	{
+		fn := from.B.Parent()
+		var work []*ssa.BasicBlock
+		for _, b := range fn.Blocks {
+			for _, in := range b.Instrs {
+				if isTarget(in) {
+					if !canReach[b] {
+						canReach[b] = true
+						work = append(work, b)
+					}
+					break
+				}
+			}
+		}
+		for len(work) > 0 {
+			b := work[len(work)-1]
+			work = work[:len(work)-1]
+			for _, pr := range b.Preds {
+				if canReach[pr] || cut.Edges[EdgeKey{pr.Index, b.Index}] {
+					continue
+				}
+				canReach[pr] = true
+				work = append(work, pr)
+			}
+		}
+	}
 	visited := map[string]bool{}
 	stack := []state{{from.B, from.I, newEnv(p), []*ssa.BasicBlock{from.B}}}
 	n := 0
@@ -338,6 +373,9 @@ func (p *Prog) FindPathPS(from Loc, isTarget func(ssa.Instruction) bool, cut *Cu
 			}
 		}
 		for _, s := range succs {
+			if !canReach[s.to] {
+				continue
+			}
 			// bind phis of the successor simultaneously
 			predIdx := -1
 			for i, pr := range s.to.Preds {
